@@ -1,5 +1,6 @@
 """C04 - navigation views of a node are mutually consistent."""
 from vlib import harness as H
+from vlib import deepchain as DC
 from vlib import texgen as G
 from vlib import oracles as O
 from vlib import docrun as D
@@ -126,7 +127,17 @@ def check_doc(nodes, src, case, res):
 
 def plan(ctx):
     shards = [('doc', PROFILES[i % len(PROFILES)], ctx.pick(600, 9000), i) for i in range(16)]
-    return [('shard_docs', shards)]
+    shards += [('doc', 'flat', ctx.pick(12, 300), 16), ('doc', 'wide', ctx.pick(150, 3000), 17)]
+    return [('shard_docs', shards),
+            ('shard_deep', [('deep', i, 8) for i in range(8)])]
+
+
+DEEP_PARTS = ('parse', 'descendants')
+
+
+def shard_deep(ctx, shard):
+    # chains nested as deeply as the pinned tree can handle (vlib/deepchain.py); closed-form oracle
+    return DC.shard('C04', DEEP_PARTS, shard[1], shard[2], H.Result())
 
 
 def shard_docs(ctx, shard):
@@ -139,4 +150,6 @@ def shard_docs(ctx, shard):
 
 
 def replay(case):
+    if case.get('sub') == 'deep-chain':
+        return DC.replay('C04', DEEP_PARTS, case)
     check_doc(None, case['src'], dict(case), None)
